@@ -61,6 +61,7 @@ where
       let s_next = s.clone();
       let s_error = s.clone();
       let s_complete = s.clone();
+      let s_alive = s.clone();
 
       *sbsc.write().unwrap() = Some(
         utils::ready_set_go(
@@ -90,6 +91,13 @@ where
           },
         ),
       );
+      if !s_alive.is_subscribed() {
+        // the subscriber left (or was handed a stored terminal) during the replay,
+        // before the subscription to the live subject could be recorded
+        if let Some(sbsc) = &*sbsc.read().unwrap() {
+          sbsc.unsubscribe();
+        }
+      }
     })
   }
 
